@@ -231,6 +231,64 @@ def serve(prog, env, extra_status=None):
     return obs
 
 
+def reuse_records(rng, n, chk):
+    from ombott import Ombott, HTTPError
+    out = []
+    for _ in range(n):
+        app = Ombott({'max_body_size': 10})
+        shared = HTTPError(rng.choice([403, 404, 418]), 'shared')
+
+        def deny(p=None):
+            raise shared
+        app.route('/deny/<p:path>', callback=deny)
+        app.route('/body/<p:path>', method='POST', callback=lambda p: app.request.body.read())
+        for i in range(4):
+            kind = rng.choice(['deny', 'oversize', 'badchunk'])
+            path = '/%s/%s' % ('deny' if kind == 'deny' else 'body', 'x' * rng.randint(1, 40))
+            environ = {}
+            setup_testing_defaults(environ)
+            environ.update(REQUEST_METHOD='GET' if kind == 'deny' else 'POST', PATH_INFO=path, QUERY_STRING='q' * rng.randint(0, 9))
+            environ['wsgi.errors'] = io.StringIO()
+            environ.pop('wsgi.file_wrapper', None)
+            if kind == 'oversize':
+                environ['wsgi.input'] = io.BytesIO(b'y' * 50)
+                environ['CONTENT_LENGTH'] = '50'
+            elif kind == 'badchunk':
+                environ['wsgi.input'] = io.BytesIO(b'zz\r\n')
+                environ['HTTP_TRANSFER_ENCODING'] = 'chunked'
+                environ.pop('CONTENT_LENGTH', None)
+            else:
+                environ['wsgi.input'] = io.BytesIO(b'')
+            rec = {'n': 0}
+
+            def sr(status, headers, exc_info=None):
+                rec['n'] += 1
+                rec['status'], rec['headers'] = status, list(headers)
+                return lambda d: None
+            obs = {'sr': 0, 'status': 0, 'cl': -1, 'sent': 0, 'closes': [], 'hooks': [], 'escaped': False, 'wf': True, 'why': 'reuse:' + kind}
+            try:
+                res = validator(app)(environ, sr)
+                body = b''.join(res)
+                res.close()
+                obs['sent'] = len(body)
+            except AssertionError as e:
+                obs['wf'] = False
+                obs['why'] += ' validator: ' + str(e)[:100]
+            except Exception as e:   # noqa
+                obs['escaped'] = True
+            obs['sr'] = rec['n']
+            if rec['n']:
+                obs['status'] = int(rec['status'].split()[0])
+                cls = [v for k, v in rec['headers'] if k.lower() == 'content-length']
+                obs['cl'] = int(cls[0]) if cls else -1
+            code = obs['status'] if obs['status'] else 500
+            out.append({'prog': {'k': 'raise', 'v': {'t': 'err', 'code': code}, 'setst': 0},
+                        'env': {'method': environ['REQUEST_METHOD'], 'fw': False, 'routing': 'found', 'nb': 0, 'failAt': 0, 'na': 0, 'errh': 'none'},
+                        'obs': obs})
+            chk.count(1, ('reuse', kind, path, i))
+    return out
+
+
 def rand_prog(rng, depth=0):
     def s():
         return {'t': 'str', 'n': rng.choice([0, 1, 3, 40, 5000]), 'wide': rng.random() < 0.4}
@@ -366,6 +424,9 @@ def run(chk):
         recs.append({'prog': prog, 'env': env, 'obs': obs})
         chk.count(1, ('rand', json.dumps(prog, sort_keys=True), json.dumps(env, sort_keys=True)))
     chk.sample({'prog': recs[-1]['prog'], 'env': recs[-1]['env'], 'obs': recs[-1]['obs']})
+    # response objects that live longer than one request: an application-level HTTPError raised by several requests and the
+    # framework's own shared 400/413 objects (config.errors_map); URLs of different lengths make the error pages differ in length
+    recs += reuse_records(rng, 60 if thorough else 12, chk)
 
     def strip(t):
         p = dict(t['prog'])
